@@ -68,6 +68,14 @@ def main() -> int:
         print("AUDIT: theorems depending on non-standard axioms:", bad_ax)
         return EXIT_INFRA
 
+    # thorough tier: independent re-check of the compiled property module with leanchecker
+    if args.tier == "thorough" and ok_prf:
+        rc, out = core.run_cmd(["lake", "env", "leanchecker", f"FcProofs.Props.{prop}"], cwd=core.LEAN_DIR, timeout=3600)
+        ctx.extra["leanchecker"] = {"exit": rc, "output_tail": out[-300:]}
+        if rc != 0:
+            print("AUDIT: leanchecker rejected the compiled property module:", out[-500:])
+            return EXIT_INFRA
+
     # ---- S2-S5
     try:
         mod = importlib.import_module(f"corr.{prop.lower()}")
